@@ -1073,11 +1073,11 @@ pub fn property() -> Property {
         subs: vec![
             Sub { name: "corpus", kind: Kind::Index { count: |_| 45, exhaustive: false, f: corpus } },
             Sub { name: "decoders", kind: Kind::Tape { max_len: 4000, quick: 150_000, thorough: 5_000_000, f: decoders } },
-            Sub { name: "text_parsers", kind: Kind::Tape { max_len: 3000, quick: 60_000, thorough: 2_000_000, f: text_parsers } },
-            Sub { name: "slice_parsers", kind: Kind::Tape { max_len: 1500, quick: 60_000, thorough: 2_000_000, f: slice_parsers } },
+            Sub { name: "text_parsers", kind: Kind::Tape { max_len: 3000, quick: 240_000, thorough: 3_000_000, f: text_parsers } },
+            Sub { name: "slice_parsers", kind: Kind::Tape { max_len: 1500, quick: 240_000, thorough: 3_000_000, f: slice_parsers } },
             Sub { name: "operations", kind: Kind::Tape { max_len: 5000, quick: 6_000, thorough: 200_000, f: operations } },
-            Sub { name: "raw_bytes", kind: Kind::Tape { max_len: 300, quick: 40_000, thorough: 1_000_000, f: raw_bytes } },
-            Sub { name: "raw_text", kind: Kind::Tape { max_len: 120, quick: 40_000, thorough: 1_000_000, f: raw_text } },
+            Sub { name: "raw_bytes", kind: Kind::Tape { max_len: 300, quick: 120_000, thorough: 1_500_000, f: raw_bytes } },
+            Sub { name: "raw_text", kind: Kind::Tape { max_len: 120, quick: 120_000, thorough: 1_500_000, f: raw_text } },
         ],
         known: vec![
             Known { key: KF_BLIND_NO_MARKED, what: "Transaction::blind panics (expect) when no output is marked for blinding", repro: repro_blind_no_marked },
